@@ -434,7 +434,7 @@ func runC15(d *RunDesc, res *RunResult) {
 		res.Stats.CaseKeys = append(res.Stats.CaseKeys, res.Stats.DescHash)
 	}
 	if sr.Budget {
-		res.Trouble = "yield budget exceeded"
+		res.Stats.count("yield-budget-exceeded") // informational; a real endless loop ends in the watchdog
 	}
 	res.Stats.Sample = fmt.Sprintf("history of %d ops, first ops: %v", len(d.Tasks[0]), firstN(d.Tasks[0], 4))
 }
